@@ -66,7 +66,8 @@ impl<TX> SendControler<TX> {
     }
 
     fn return_back(&mut self, flow: u64) {
-        self.sent_data -= flow;
+        // a credit taken before a 0-RTT rejection may be returned after `sent_data` was reset
+        self.sent_data = self.sent_data.saturating_sub(flow);
         if self.avaliable() > 0 {
             self.tx_wakers.wake_all_by(Signals::FLOW_CONTROL);
         }
@@ -75,6 +76,8 @@ impl<TX> SendControler<TX> {
     fn revise_max_data(&mut self, zero_rtt_rejected: bool, max_data: u64) {
         if zero_rtt_rejected {
             self.max_data = 0;
+            // everything sent in 0-RTT is forgotten by the streams and will be sent, and charged, again
+            self.sent_data = 0;
             self.flow_limited = false;
         }
         self.increase_limit(max_data);
